@@ -2924,7 +2924,7 @@ namespace awkward {
                     current_error_ = util::ForthError::stack_overflow;         \
                     return;                                                    \
                   }                                                            \
-                  stack_push((I)value);                                        \
+                  stack_push((T)value);                                        \
                 }                                                              \
                 break;                                                         \
               }
@@ -2950,7 +2950,7 @@ namespace awkward {
                     current_error_ = util::ForthError::stack_overflow;         \
                     return;                                                    \
                   }                                                            \
-                  stack_push((I)value);                                        \
+                  stack_push((T)value);                                        \
                 }                                                              \
                 break;                                                         \
               }
